@@ -20,6 +20,27 @@ def run(ctx):
                            "including histories cut short by crashes at every point; batch byte limits swept over every overflow position.")
 
 
+    # early-completed map / parallel calls whose stragglers keep working (first and later invocations, nested two levels deep) while the
+    # handler goes on to record an execution-level result: nothing may follow that record
+    from checks.durable_common import run_campaign
+    from checks.executor_common import CURATED_CONC
+    import copy
+    items = []
+    for nm in ("m17_reinvoke_early_completion", "m20_reinvoke_nested_straggler", "m02_first_successful"):
+        p = copy.deepcopy(CURATED_CONC[nm])
+        p["nodes"] = p["nodes"][:1]              # the handler returns right after the call ...
+        p["final_large"] = True                  # ... with an oversized result: EXECUTION SUCCEED is checkpointed
+        for k in range(3 if ctx.quick else 10):
+            items.append((p, {"seed": 1100 + k, "api_latency": (0.05, 0.3, 0.0)[k % 3], "max_inv": 12,
+                              "strategy": "pct" if k % 2 else "random"}))
+    # oversized early-completed calls replayed in later invocations (rebuilt from the children's records): an unfinished branch
+    # below the completed call must not send anything any more
+    for nm in ("m21_oversized_early_straggler", "m22_oversized_early_parked", "m23_oversized_early_failing_straggler"):
+        for k in range(3 if ctx.quick else 10):
+            items.append((CURATED_CONC[nm], {"seed": 1150 + k, "api_latency": (0.05, 0.3, 0.0)[k % 3], "max_inv": 12,
+                                             "strategy": "pct" if k % 2 else "random"}))
+    for e in run_campaign(ctx, items):
+        oracles.c11(ctx, e)
     # operations started by several threads on one context must get distinct ids (else: two STARTs for one operation)
     from checks.c08 import shared_context_part
     shared_context_part(ctx)
